@@ -445,8 +445,9 @@ func ApplyJSONPath(node *Node, commands []string) (result []*Node, err error) {
 							return nil, errorRequest("wrong request: %s", cmd)
 						}
 						if value != nil {
-							ok, err = boolean(value)
-							if err != nil || !ok {
+							var berr error
+							ok, berr = boolean(value)
+							if berr != nil || !ok {
 								continue
 							}
 							temporary = append(temporary, temp)
